@@ -36,7 +36,7 @@ pub fn spec() -> CheckSpec {
     ],
     real_components: "deno_graph Builder::build (known-root filtering, FillPassMode), Builder::reload, existing-slot short-circuit",
     stub_components: "all seams simulated; world edited between operations",
-    quick_cases: 2500,
+    quick_cases: 10000,
     thorough_cases: 120000,
     run_case,
     systematic: |_| 0,
@@ -130,6 +130,10 @@ pub fn run_case(tape: &mut Tape, _tier: Tier, _p: &CaseParams) -> CaseOutcome {
     .remote
     .keys()
     .filter(|u| !u.ends_with("meta.json"))
+    // a source map is loaded as a source map; importing it as a module or
+    // making it a root would mix the kinds of use of one target, which the
+    // statement's proviso excludes
+    .filter(|u| !u.ends_with(".map") && !final_target(&world, u).ends_with(".map"))
     .cloned()
     .collect();
   let extra = tape.small(Stream::World, 0, 3);
